@@ -27,6 +27,15 @@ claimed = {
              "(405 and OPTIONS) equal the set of methods not answered 404/405, outside the recorded finding classes.", design="5 (C17)"),
  "C18": dict(text="Twin containers (CurlyRouter, RouterJSR311) on tables of the common fragment get the same symbolic request; the solver proves equal route, parameter values, status and Allow "
              "set outside the recorded input classes (empty segment / no leading slash, newline byte).", design="5 (C18)"),
+ "C06": dict(text="Enumerated filter counts per level and entry modes; each generated filter's behaviour (pass on / stop, replace the request-response pair, set an attribute, http middleware) "
+             "is a symbolic bit; the solver proves on every path that the log of filter and handler invocations equals the reference sequence and that the pair and attributes passed on are "
+             "the ones received, also after an earlier request on the same container.", design="5 (C06)"),
+ "C08": dict(text="CrossOriginResourceSharing.Filter in a real container with symbolic Origin, symbolic allowed-domain entries and predicate string: the solver proves that any Access-Control-* "
+             "response header implies the reference 'origin allowed' predicate, that Allow-Origin echoes the Origin once, credentials only if configured, and that requests without or with a "
+             "disallowed Origin are served exactly like on a filter-less twin.", design="5 (C08)"),
+ "C09": dict(text="Symbolic method, requested method and requested header list against configured or computed allowed methods and symbolic allowed headers: the solver proves that a preflight "
+             "never reaches a later filter or route, is granted exactly when method and every requested header are allowed, and that actual requests proceed with each header once; an optional "
+             "earlier preflight to the other URL must not change the answer.", design="5 (C09)"),
 }
 not_applicable = {
 }
